@@ -138,15 +138,30 @@ def announcePeers (s : RState) (ih : Bytes) (seeder : Bool) (numWant : Nat) (p :
 def gcKeyRead (s : RState) (k : Bytes) (cutoff : Int) : List (Bytes × Int) :=
   (hget s k).filter (fun e => decide (e.2 ≤ cutoff))
 
-/-- the remaining round trips: HDEL of the fields decided on, DECRBY, then the WATCH/HLEN/MULTI removal
-of the index entry when the hash is empty. (HDEL removes a field whatever its current value.) -/
-def gcKeyApply (s : RState) (f : Fam) (k : Bytes) (stale : List (Bytes × Int)) : RState :=
+/-- the removal, as one `MULTI … HDEL k f₁ … fₙ … EXEC` group, and the `DECRBY` that follows it.
+(HDEL removes a field whatever its current value.) -/
+def gcHashApply (s : RState) (f : Fam) (k : Bytes) (stale : List (Bytes × Int)) : RState :=
   let s1 := stale.foldl (fun acc e => (hdel acc k e.1).1) s
-  let s2 := if stale.length > 0 then addC s1 f (if keyIsSeeder k then .s else .l) (-(stale.length : Int)) else s1
-  if (hget s2 k).isEmpty then
-    let s3 := setIdx s2 f (AMap.erase (idx s2 f) k)
-    if keyIsSeeder k then addC s3 f .ih (-1) else s3
-  else s2
+  if stale.length > 0 then addC s1 f (if keyIsSeeder k then .s else .l) (-(stale.length : Int)) else s1
+
+/-- the second half of the work on one swarm key: `WATCH k`, `HLEN k`, and when the hash is empty the
+`MULTI … HDEL <family> k … EXEC` group that unregisters it, followed by the `DECR` of the infohash count -/
+def gcIdx (s : RState) (f : Fam) (k : Bytes) : RState :=
+  if (hget s k).isEmpty then
+    let s3 := setIdx s f (AMap.erase (idx s f) k)
+    -- D16 repaired: the infohash count follows the reply of the HDEL (1 iff the key was registered)
+    if keyIsSeeder k && AMap.has (idx s f) k then addC s3 f .ih (-1) else s3
+  else s
+
+/-- the remaining round trips after the read: removal of the fields decided on, DECRBY, then the
+WATCH/HLEN/MULTI removal of the index entry when the hash is empty. -/
+def gcKeyApply (s : RState) (f : Fam) (k : Bytes) (stale : List (Bytes × Int)) : RState :=
+  gcIdx (gcHashApply s f k stale) f k
+
+/-- the first half on one swarm key when nothing intervenes between the read and the removal (which is
+what the `WATCH` of the repaired collector guarantees for a removal that goes through) -/
+def gcHash (s : RState) (f : Fam) (k : Bytes) (cutoff : Int) : RState :=
+  gcHashApply s f k (gcKeyRead s k cutoff)
 
 /-- one swarm key of the pass, run without anything in between -/
 def gcKey (s : RState) (f : Fam) (k : Bytes) (cutoff : Int) : RState :=
@@ -187,13 +202,23 @@ namespace RedisConc
 open RedisStore
 open MemStore (peerKey)
 
-/-- the announce-path store operations (everything but the expiry pass) -/
+/-- the store operations as units of atomicity: the five announce-path operations, and the two command
+groups the (repaired) collector commits per swarm key. A collector pass is a thread whose program is
+`gcHash k₁, gcIdx k₁, gcHash k₂, gcIdx k₂, …` for the keys its `HKEYS` returned.
+
+The collector's groups are *optimistic*: it reads the swarm hash under `WATCH` (HGETALL resp. HLEN) and
+its `MULTI … EXEC` goes through only if the hash has not changed since — so what it decided from the
+read is what it would decide from the hash at the moment of the `EXEC`, and the committed group is this
+atomic step. A discarded `EXEC` changes nothing (the collector reads again, or leaves the key to the
+next pass) and is not a step of the model. -/
 inductive AOp where
   | putSeeder (ih : Bytes) (p : Peer) (now : Int)
   | putLeecher (ih : Bytes) (p : Peer) (now : Int)
   | graduate (ih : Bytes) (p : Peer) (now : Int)
   | deleteSeeder (ih : Bytes) (p : Peer)
   | deleteLeecher (ih : Bytes) (p : Peer)
+  | gcHash (f : Fam) (seeder : Bool) (ih : Bytes) (cutoff : Int)
+  | gcIdx (f : Fam) (seeder : Bool) (ih : Bytes)
   deriving DecidableEq
 
 /-- one `INCR` / `DECR` round trip -/
@@ -227,6 +252,16 @@ def first (s : RState) : AOp → RState × List Delta × Bool
   | .deleteLeecher ih p =>
     let x := hdel s (swarmKey p.fam false ih) (peerKey p)
     if x.2 == 0 then (s, [], false) else (x.1, [⟨p.fam, .l, -1⟩], true)
+  | .gcHash f r ih cutoff =>
+    let k := swarmKey f r ih
+    let stale := gcKeyRead s k cutoff
+    (stale.foldl (fun acc e => (hdel acc k e.1).1) s,
+     dIf (decide (stale.length > 0)) f (if keyIsSeeder k then .s else .l) (-(stale.length : Int)), true)
+  | .gcIdx f r ih =>
+    let k := swarmKey f r ih
+    if (hget s k).isEmpty then
+      (setIdx s f (AMap.erase (idx s f) k), dIf (keyIsSeeder k && AMap.has (idx s f) k) f .ih (-1), true)
+    else (s, [], true)
 
 /-- an operation run alone: its first round trip, then its counter round trips -/
 def seqOp (s : RState) (o : AOp) : RState := applyDeltas (first s o).1 (first s o).2.1
